@@ -913,6 +913,7 @@ def evidence(tier, seed, by_mode, det, n_viol, known_hits, errors, wall):
             'epsalg_skipped_vanishing_margin': s.get('eps_skipped_margin', 0),
             'epsalg_skipped_ill_conditioned': s.get('eps_skipped_cond', 0),
             'dea_feeds_checked_total_finite': s.get('dea_checked', 0),
+            'dea_instances_resized_through_setter_before_use': s.get('dea_instances_resized_before_use', 0),
             'dea_floor_checks': s.get('dea_floor_checked', 0),
             'dea_vs_dea3_checks': s.get('dea3_checked', 0),
             'dea_vs_epsalg_checks': s.get('dea_eps_checked', 0),
